@@ -5,6 +5,7 @@ package backend
 import (
 	"time"
 
+	"github.com/kubewharf/kubebrain/pkg/backend/coder"
 	"github.com/kubewharf/kubebrain/pkg/backend/tso"
 )
 
@@ -33,3 +34,10 @@ func VerifPeek(b Backend) (committed, issued uint64) {
 
 // VerifRetryQueueLen is the length of the unknown-outcome retry queue.
 func VerifRetryQueueLen(b Backend) int { return b.(*backend).asyncFifoRetry.Size() }
+
+// VerifCompactBorders returns the internal intervals a compaction scans for a node configured with
+// the given prefix and skipped prefixes (pairs start, end), computed by the production function.
+func VerifCompactBorders(prefix string, skipped []string) [][]byte {
+	b := &backend{config: Config{Prefix: prefix, SkippedPrefixes: skipped}, coder: coder.NewNormalCoder()}
+	return b.getCompactBorders()
+}
